@@ -168,18 +168,29 @@ def deProtoList : List BlockPB → Option (List Block)
     pure (d :: ds)
 end
 
+/-- `DeProtoMomentumContent` -/
+def deProtoContent : List AccountHeaderPB → Option (List AccountHeader)
+  | [] => some []
+  | h :: hs => do
+    let x ← deProtoAccountHeader h
+    let xs ← deProtoContent hs
+    pure (x :: xs)
+
 /-- `DeProtoMomentum` (the caches filled by `EnsureCache` are not part of the model) -/
 def MomentumPB.deProto (p : MomentumPB) : Option Momentum := do
   let hash ← deProtoFixed Gen.HashSize p.hash
   let previousHash ← deProtoFixed Gen.HashSize p.previousHash
-  let content ← p.content.mapM deProtoAccountHeader
+  let content ← deProtoContent p.content
   let changesHash ← deProtoFixed Gen.HashSize p.changesHash
   pure {
     version := p.version, chainIdentifier := p.chainIdentifier, hash := hash, previousHash := previousHash,
     height := p.height, timestampUnix := p.timestamp, data := p.data, content := content,
     changesHash := changesHash, publicKey := p.publicKey, signature := p.signature }
 
-/-! ## proto3 wire format, encoder (`proto.Marshal`: fields in field-number order) -/
+/-! ## proto3 wire format, encoder (`proto.Marshal`: known fields in field-number order)
+
+A message is first laid out as its list of wire records (`WField`), with proto3 default omission made
+explicit, and the records are then encoded one after the other. -/
 
 /-- base-128 varint, least significant group first, continuation bit 0x80 (`protowire.AppendVarint`) -/
 def varintAux : Nat → Nat → Bytes
@@ -188,66 +199,85 @@ def varintAux : Nat → Nat → Bytes
 
 def varint (n : Nat) : Bytes := varintAux (n + 1) n
 
-/-- wire types -/
-def wtVarint : Nat := 0
-def wtLen : Nat := 2
+/-- value of a wire record: wire type 0 (varint), 2 (length-delimited), 1 / 5 (fixed 8 / 4 bytes) -/
+inductive WVal where
+  | varint (n : Nat)
+  | len (b : Bytes)
+  | fixed (wt : Nat) (b : Bytes)
+deriving DecidableEq, Repr, Inhabited
+
+structure WField where
+  num : Nat
+  val : WVal
+deriving DecidableEq, Repr, Inhabited
 
 def tag (num wt : Nat) : Bytes := varint (num * 8 + wt)
 
-/-- proto3 scalar without presence: omitted when zero -/
-def fVarint (num v : Nat) : Bytes := if v = 0 then [] else tag num wtVarint ++ varint v
+/-- one record on the wire -/
+def encField (f : WField) : Bytes :=
+  match f.val with
+  | .varint v => tag f.num 0 ++ varint v
+  | .len b => tag f.num 2 ++ (varint b.length ++ b)
+  | .fixed wt b => tag f.num wt ++ b
 
-/-- length-delimited record -/
-def lenRec (num : Nat) (b : Bytes) : Bytes := tag num wtLen ++ varint b.length ++ b
+def encFields (fs : List WField) : Bytes := (fs.map encField).flatten
+
+/-- proto3 scalar without presence: omitted when zero -/
+def fVarint (num v : Nat) : List WField := if v = 0 then [] else [⟨num, .varint v⟩]
 
 /-- proto3 `bytes` without presence: omitted when empty -/
-def fBytes (num : Nat) (b : Bytes) : Bytes := if b.isEmpty then [] else lenRec num b
+def fBytes (num : Nat) (b : Bytes) : List WField := if b.isEmpty then [] else [⟨num, .len b⟩]
 
 /-- singular message field: emitted iff the pointer is non-nil (also when the message encodes to nothing) -/
-def fMsg (num : Nat) (m : Option Bytes) : Bytes :=
+def fMsg (num : Nat) (m : Option (List WField)) : List WField :=
   match m with
   | none => []
-  | some e => lenRec num e
+  | some fs => [⟨num, .len (encFields fs)⟩]
 
 /-- `HashProto` / `AddressProto`: field 1, bytes -/
-def encBytesMsg (b : BytesMsg) : Bytes := fBytes 1 b
+def bytesMsgFields (b : BytesMsg) : List WField := fBytes 1 b
 
-def encHashHeightPB (p : HashHeightPB) : Bytes :=
-  fMsg 1 (p.hash.map encBytesMsg) ++ fVarint 2 p.height
+def hashHeightFields (p : HashHeightPB) : List WField :=
+  fMsg 1 (p.hash.map bytesMsgFields) ++ fVarint 2 p.height
 
-def encAccountHeaderPB (p : AccountHeaderPB) : Bytes :=
-  fMsg 1 (p.address.map encBytesMsg) ++ fMsg 2 (p.hashHeight.map encHashHeightPB)
+def accountHeaderFields (p : AccountHeaderPB) : List WField :=
+  fMsg 1 (p.address.map bytesMsgFields) ++ fMsg 2 (p.hashHeight.map hashHeightFields)
 
 /-- fields 1–12 of `AccountBlockProto` -/
-def encABodyPBHead (p : ABodyPB) : Bytes :=
+def abHeadFields (p : ABodyPB) : List WField :=
   fVarint 1 p.version ++ fVarint 2 p.chainIdentifier ++ fVarint 3 p.blockType ++
-  fMsg 4 (p.hash.map encBytesMsg) ++ fMsg 5 (p.previousHash.map encBytesMsg) ++ fVarint 6 p.height ++
-  fMsg 7 (p.momentumAcknowledged.map encHashHeightPB) ++ fMsg 8 (p.address.map encBytesMsg) ++
-  fMsg 9 (p.toAddress.map encBytesMsg) ++ fBytes 10 p.amount ++ fBytes 11 p.tokenStandard ++
-  fMsg 12 (p.fromBlockHash.map encBytesMsg)
+  fMsg 4 (p.hash.map bytesMsgFields) ++ fMsg 5 (p.previousHash.map bytesMsgFields) ++ fVarint 6 p.height ++
+  fMsg 7 (p.momentumAcknowledged.map hashHeightFields) ++ fMsg 8 (p.address.map bytesMsgFields) ++
+  fMsg 9 (p.toAddress.map bytesMsgFields) ++ fBytes 10 p.amount ++ fBytes 11 p.tokenStandard ++
+  fMsg 12 (p.fromBlockHash.map bytesMsgFields)
 
 /-- fields 14–23 of `AccountBlockProto` (there is no field 16) -/
-def encABodyPBTail (p : ABodyPB) : Bytes :=
+def abTailFields (p : ABodyPB) : List WField :=
   fBytes 14 p.data ++ fVarint 15 p.fusedPlasma ++ fVarint 17 p.difficulty ++ fBytes 18 p.nonce ++
-  fVarint 19 p.basePlasma ++ fVarint 20 p.totalPlasma ++ fMsg 21 (p.changesHash.map encBytesMsg) ++
+  fVarint 19 p.basePlasma ++ fVarint 20 p.totalPlasma ++ fMsg 21 (p.changesHash.map bytesMsgFields) ++
   fBytes 22 p.publicKey ++ fBytes 23 p.signature
 
 mutual
-/-- `proto.Marshal(*AccountBlockProto)` -/
-def encBlockPB : BlockPB → Bytes
-  | ⟨body, ds⟩ => encABodyPBHead body ++ encDescPB ds ++ encABodyPBTail body
+/-- the wire records of an `AccountBlockProto` -/
+def blockFields : BlockPB → List WField
+  | ⟨body, ds⟩ => abHeadFields body ++ descFields ds ++ abTailFields body
 /-- field 13, repeated message: one record per element -/
-def encDescPB : List BlockPB → Bytes
+def descFields : List BlockPB → List WField
   | [] => []
-  | d :: ds => lenRec 13 (encBlockPB d) ++ encDescPB ds
+  | d :: ds => ⟨13, .len (encFields (blockFields d))⟩ :: descFields ds
 end
 
+/-- `proto.Marshal(*AccountBlockProto)` -/
+def encBlockPB (p : BlockPB) : Bytes := encFields (blockFields p)
+
+def momentumFields (p : MomentumPB) : List WField :=
+  fVarint 1 p.version ++ fVarint 2 p.chainIdentifier ++ fMsg 3 (p.hash.map bytesMsgFields) ++
+  fMsg 4 (p.previousHash.map bytesMsgFields) ++ fVarint 5 p.height ++ fVarint 6 p.timestamp ++ fBytes 7 p.data ++
+  p.content.map (fun h => ⟨8, .len (encFields (accountHeaderFields h))⟩) ++
+  fMsg 9 (p.changesHash.map bytesMsgFields) ++ fBytes 10 p.publicKey ++ fBytes 11 p.signature
+
 /-- `proto.Marshal(*MomentumProto)` -/
-def encMomentumPB (p : MomentumPB) : Bytes :=
-  fVarint 1 p.version ++ fVarint 2 p.chainIdentifier ++ fMsg 3 (p.hash.map encBytesMsg) ++
-  fMsg 4 (p.previousHash.map encBytesMsg) ++ fVarint 5 p.height ++ fVarint 6 p.timestamp ++ fBytes 7 p.data ++
-  (p.content.map (fun h => lenRec 8 (encAccountHeaderPB h))).flatten ++
-  fMsg 9 (p.changesHash.map encBytesMsg) ++ fBytes 10 p.publicKey ++ fBytes 11 p.signature
+def encMomentumPB (p : MomentumPB) : Bytes := encFields (momentumFields p)
 
 /-- `(ab *AccountBlock) Serialize()` -/
 def Block.serialize (b : Block) : Bytes := encBlockPB b.proto
@@ -255,22 +285,76 @@ def Block.serialize (b : Block) : Bytes := encBlockPB b.proto
 /-- `(m *Momentum) Serialize()` -/
 def Momentum.serialize (m : Momentum) : Bytes := encMomentumPB m.proto
 
-/-- the field numbers / kinds the encoder uses, in the form of `Gen.abProtoSchema` -/
-def abSchemaUsed : List (String × Nat × String × String) := [
-  ("Version", 1, "varint", "opt"), ("ChainIdentifier", 2, "varint", "opt"), ("BlockType", 3, "varint", "opt"),
-  ("Hash", 4, "message", "opt"), ("PreviousHash", 5, "message", "opt"), ("Height", 6, "varint", "opt"),
-  ("MomentumAcknowledged", 7, "message", "opt"), ("Address", 8, "message", "opt"),
-  ("ToAddress", 9, "message", "opt"), ("Amount", 10, "bytes", "opt"), ("TokenStandard", 11, "bytes", "opt"),
-  ("FromBlockHash", 12, "message", "opt"), ("DescendantBlocks", 13, "message", "rep"), ("Data", 14, "bytes", "opt"),
-  ("FusedPlasma", 15, "varint", "opt"), ("Difficulty", 17, "varint", "opt"), ("Nonce", 18, "bytes", "opt"),
-  ("BasePlasma", 19, "varint", "opt"), ("TotalPlasma", 20, "varint", "opt"), ("ChangesHash", 21, "message", "opt"),
-  ("PublicKey", 22, "bytes", "opt"), ("Signature", 23, "bytes", "opt")]
+/-! ## proto3 wire format, decoder (`proto.Unmarshal`, package impl/decode.go + protowire) -/
 
-def momentumSchemaUsed : List (String × Nat × String × String) := [
-  ("Version", 1, "varint", "opt"), ("ChainIdentifier", 2, "varint", "opt"), ("Hash", 3, "message", "opt"),
-  ("PreviousHash", 4, "message", "opt"), ("Height", 5, "varint", "opt"), ("Timestamp", 6, "varint", "opt"),
-  ("Data", 7, "bytes", "opt"), ("Content", 8, "message", "rep"), ("ChangesHash", 9, "message", "opt"),
-  ("PublicKey", 10, "bytes", "opt"), ("Signature", 11, "bytes", "opt")]
+/-- `protowire.ConsumeVarint`: at most 10 bytes and the 10th at most 1 (64 bits); non-minimal encodings are
+    accepted; `none` = truncated or overflow. `f` counts the bytes still allowed. -/
+def decVarintAux : Nat → Nat → Nat → Bytes → Option (Nat × Bytes)
+  | 0, _, _, _ => none
+  | _ + 1, _, _, [] => none
+  | f + 1, mult, acc, b :: rest =>
+    if b < 128 then
+      if f = 0 ∧ 2 ≤ b then none else some (acc + mult * b, rest)
+    else decVarintAux f (mult * 128) (acc + mult * (b - 128)) rest
+
+def decVarint (b : Bytes) : Option (Nat × Bytes) := decVarintAux 10 1 0 b
+
+/-- `protowire.MaxValidNumber` = 2^29 − 1 -/
+def maxFieldNumber : Nat := 536870911
+
+/-- one record: tag, then the value by wire type. Field numbers outside 1 … 2^29−1 are a decode error.
+    Groups (wire types 3, 4) are outside the model (`none`); 6 and 7 are errors in Go too. -/
+def decField (b : Bytes) : Option (WField × Bytes) := do
+  let (t, rest) ← decVarint b
+  let num := t / 8
+  if num < 1 ∨ maxFieldNumber < num then none
+  else match t % 8 with
+  | 0 => do
+    let (v, rest) ← decVarint rest
+    pure (⟨num, .varint v⟩, rest)
+  | 1 => if rest.length < 8 then none else some (⟨num, .fixed 1 (rest.take 8)⟩, rest.drop 8)
+  | 2 => do
+    let (l, rest) ← decVarint rest
+    if rest.length < l then none else pure (⟨num, .len (rest.take l)⟩, rest.drop l)
+  | 5 => if rest.length < 4 then none else some (⟨num, .fixed 5 (rest.take 4)⟩, rest.drop 4)
+  | _ => none
+
+/-- all records of a message; `fuel` ≥ number of records (`parseFields` passes the byte length) -/
+def decFields : Nat → Bytes → Option (List WField)
+  | _, [] => some []
+  | 0, _ :: _ => none
+  | f + 1, b => do
+    let (fld, rest) ← decField b
+    let fs ← decFields f rest
+    pure (fld :: fs)
+
+def parseFields (b : Bytes) : Option (List WField) := decFields b.length b
+
+/-! ## the field numbers the encoder uses, observed on probe messages with every field set -/
+
+def wireKind (v : WVal) : String :=
+  match v with
+  | .varint _ => "varint"
+  | .len _ => "len"
+  | .fixed _ _ => "fixed"
+
+/-- wire kind of a schema entry of `Gen.*ProtoSchema`: `bytes` and `message` are both length-delimited -/
+def schemaWire (e : String × Nat × String × String) : Nat × String :=
+  (e.2.1, if e.2.2.1 = "varint" then "varint" else "len")
+
+def usedWire (fs : List WField) : List (Nat × String) := fs.map (fun f => (f.num, wireKind f.val))
+
+def probeHashHeightPB : HashHeightPB := { hash := some [1], height := 1 }
+def probeAccountHeaderPB : AccountHeaderPB := { address := some [1], hashHeight := some probeHashHeightPB }
+def probeABodyPB : ABodyPB := {
+  version := 1, chainIdentifier := 1, blockType := 1, hash := some [1], previousHash := some [1], height := 1,
+  momentumAcknowledged := some probeHashHeightPB, address := some [1], toAddress := some [1], amount := [1],
+  tokenStandard := [1], fromBlockHash := some [1], data := [1], fusedPlasma := 1, difficulty := 1, nonce := [1],
+  basePlasma := 1, totalPlasma := 1, changesHash := some [1], publicKey := [1], signature := [1] }
+def probeBlockPB : BlockPB := ⟨probeABodyPB, [⟨probeABodyPB, []⟩]⟩
+def probeMomentumPB : MomentumPB := {
+  version := 1, chainIdentifier := 1, hash := some [1], previousHash := some [1], height := 1, timestamp := 1,
+  data := [1], content := [probeAccountHeaderPB], changesHash := some [1], publicKey := [1], signature := [1] }
 
 /-- reviewed copies of the composite literals of `Proto()` / `DeProto…()` (target field, source expression) -/
 def reviewed_abProtoAssign : List (String × String) := [
